@@ -123,6 +123,13 @@ class Violation(Exception):
     """Raised inside a Hypothesis body; carries nothing, the context remembers the case."""
 
 
+class StopShrink(KeyboardInterrupt):
+    """Raised once the shrinking budget of a failing example is used up; the smallest failing case seen so far is kept."""
+
+
+SHRINK_BUDGET = {'quick': (400, 25.0), 'thorough': (4000, 240.0)}   # (evaluations, seconds) after the first failure
+
+
 class AbortRun(KeyboardInterrupt):
     """Raised after a confirmed wall-clock hang: every further evaluation (and above all shrinking) would cost the full
     time limit again, so the task records the case as it is and stops. Hypothesis re-raises KeyboardInterrupt at once."""
@@ -148,6 +155,7 @@ class Ctx:
         self.notes = []
         self.floors = []
         self._last = None
+        self._machine_budget = None
 
     # ---- counting
     def case(self, key=None, nontrivial=False, labels=()):
@@ -207,6 +215,15 @@ class Ctx:
         """Hypothesis style: raise so that the library shrinks towards a minimal case of this signature."""
         if self._known(signature):
             return
+        if self._machine_budget is not None:
+            # state machines: minimisation is bounded here (plain @given tests are bounded inside drive())
+            st_ = self._machine_budget
+            if st_['t0'] is None:
+                st_['t0'] = time.time()
+            st_['calls'] += 1
+            if st_['calls'] > st_['max_calls'] or time.time() - st_['t0'] > st_['max_s']:
+                self.report(signature, case, str(message) + ' [minimisation stopped at its budget]')
+                raise AbortRun(signature)
         if signature.endswith('@wall-clock'):
             self.report(signature, case, message)
             raise AbortRun(signature)
@@ -275,14 +292,33 @@ def drive(ctx, strategy, body, max_examples, salt='', rounds=5, shrink=True):
     for rnd in range(rounds):
         ctx._last = None
 
+        budget_calls, budget_s = SHRINK_BUDGET.get(ctx.tier, SHRINK_BUDGET['quick'])
+        shrink_state = {'calls': 0, 't0': None}
+
         @hseed(derive_seed(ctx.seed, ctx.prop, ctx.task, salt, rnd))
         @hyp_settings(max_examples, shrink=shrink)
         @given(strategy)
         def test(value):
-            body(value)
+            if shrink_state['t0'] is not None:
+                # a failure has been seen: everything from here on is minimisation, which only affects how small the
+                # saved case is, never the verdict - so it is bounded
+                shrink_state['calls'] += 1
+                if shrink_state['calls'] > budget_calls or time.time() - shrink_state['t0'] > budget_s:
+                    raise StopShrink()
+            try:
+                body(value)
+            except Violation:
+                if shrink_state['t0'] is None:
+                    shrink_state['t0'] = time.time()
+                raise
 
         try:
             test()
+        except StopShrink:
+            sig, case, msg = ctx._last
+            ctx.report(sig, case, msg + ' [minimisation stopped at its budget]')
+            ctx.excluded.add(sig)
+            continue
         except AbortRun:
             ctx.note('task stopped after a confirmed wall-clock hang (every further evaluation would cost the full limit)')
             break
@@ -347,11 +383,15 @@ def drive_machine(ctx, machine_factory, max_examples, steps, salt='', rounds=4, 
 
     for rnd in range(rounds):
         ctx._last = None
+        calls, secs = SHRINK_BUDGET.get(ctx.tier, SHRINK_BUDGET['quick'])
+        ctx._machine_budget = {'t0': None, 'calls': 0, 'max_calls': calls // 4, 'max_s': secs}
         machine = hseed(derive_seed(ctx.seed, ctx.prop, ctx.task, salt, rnd))(machine_factory())
         try:
             run_state_machine_as_test(machine, settings=hyp_settings(max_examples, steps, shrink=shrink))
-        except AbortRun:
-            break
+        except AbortRun as ex:
+            ctx.excluded.add(str(ex))
+            ctx._machine_budget = None
+            continue
         except Violation:
             sig, case, msg = ctx._last
             ctx.report(sig, case, msg)
@@ -367,6 +407,8 @@ def drive_machine(ctx, machine_factory, max_examples, steps, salt='', rounds=4, 
             if _shrinker_crashed(ctx, ex):
                 continue
             raise
+        finally:
+            ctx._machine_budget = None
         break
 
 
